@@ -1,7 +1,8 @@
 (* C02: the decorated DataSet.select (Model/SelectA.v) is all-or-nothing; consequences for whole histories. *)
 From Coq Require Import ZArith List Bool String Ascii Permutation Lia.
 From KV Require Import Base.Sx Base.Str Base.SelSlice Gen.Generated Model.Select Model.SelectX Model.SelectA
-  Proofs.SelectBaseP Proofs.SelectP Proofs.SelectXP Proofs.SelectXRefP Proofs.SelectXLawsP Proofs.SelectXExP.
+  Proofs.SelectBaseP Proofs.SelectP Proofs.SelectXP Proofs.SelectXRefP Proofs.SelectXLawsP Proofs.SelectXFormsP
+  Proofs.SelectXExP.
 Import ListNotations.
 Open Scope Z_scope.
 
@@ -198,4 +199,62 @@ Proof.
   repeat split; try (vm_compute; reflexivity).
   - vm_compute. discriminate.
   - apply xafter_a_reach; [constructor | repeat constructor; simpl; intuition discriminate].
+Qed.
+
+(* ---------------------------------------------------------------- a switching call that names the third dimension *)
+(* default reset, the call changes the window and carries a product criterion (or changes the subarray and carries a
+   channel criterion): ALL THREE dimensions start afresh - the selection after the call does not depend on the
+   selection before it (in particular the products / channels are not ANDed onto the old ones) *)
+Lemma switch_third_dimension : forall xo s xkw s', XInv xo s -> NoDup (map fst xkw) ->
+  xselect_a xo s xkw = (OOk, s') ->
+  let kw := elab_kw (x_vocab xo) xkw in
+  let o := view_at xo (x_spw s') (x_sub s') in
+  lookup "reset" kw = None ->
+  (x_spw s' <> x_spw s /\ hits kw (doc_group DB) = true) \/ (x_sub s' <> x_sub s /\ hits kw (doc_group DF) = true) ->
+  forall d, mget d (x_core s') = fold_left mand (spec_crit_masks o d kw) (xbase xo o (x_spw s') (x_sub s') d).
+Proof.
+  intros xo s xkw s' I N E kw o Hr Hc d. apply xselect_a_ok in E.
+  destruct (xselect_dims xo s xkw s' I N E) as [Hd _]. cbv zeta in Hd. fold kw in Hd. fold o in Hd. rewrite Hd.
+  assert (Hauto : forall d', hits kw (doc_group d') = true -> spec_reset kw d' = true).
+  { intros d' Hh. unfold spec_reset. destruct kw as [|p l] eqn:Ek; [reflexivity|]. rewrite Hr. exact Hh. }
+  assert (X : xspec_reset kw (negb (x_spw s' =? x_spw s)) (negb (x_sub s' =? x_sub s)) d = true).
+  { unfold xspec_reset. destruct Hc as [[Hne Hh]|[Hne Hh]].
+    - assert (C : negb (x_spw s' =? x_spw s) = true) by (apply negb_true_iff, Z.eqb_neq; exact Hne). rewrite C.
+      destruct d; cbn [andb orb]; rewrite ?orb_true_r; try reflexivity. rewrite (Hauto DB Hh). reflexivity.
+    - assert (C : negb (x_sub s' =? x_sub s) = true) by (apply negb_true_iff, Z.eqb_neq; exact Hne). rewrite C.
+      destruct d; cbn [andb orb]; rewrite ?orb_true_r; try reflexivity. rewrite (Hauto DF Hh). reflexivity. }
+  rewrite X. reflexivity.
+Qed.
+
+(* non-vacuity on ex_xobs: pol='h' (products [1;1;0]), then spw=1 with ants='m000' - the products are those of
+   ants='m000' alone ([1;0;0] would be the same here, so take corrprods=[2]): the old pol criterion is gone *)
+Definition xc_pol : xkwargs := [("pol"%string, XBare (AStr "h"))].
+Definition xc_switch : xkwargs := [("spw"%string, XCore (VAtom 1)); ("corrprods"%string, XCore (VIdx (IxList [2])))].
+Lemma ex_switch_instance :
+  bk (x_core (xafter_a ex_xobs xs0 [xc_pol])) = map bb [1;1;0]
+  /\ fst (xselect_a ex_xobs (xafter_a ex_xobs xs0 [xc_pol]) xc_switch) = OOk
+  /\ bk (x_core (xafter_a ex_xobs xs0 [xc_pol; xc_switch])) = map bb [0;0;1]
+  /\ keys (sel (x_core (xafter_a ex_xobs xs0 [xc_pol; xc_switch]))) = ["spw"; "subarray"; "corrprods"]%string
+  /\ x_spw (xafter_a ex_xobs xs0 [xc_pol; xc_switch]) = 1
+  /\ hits (elab_kw ex_vocab xc_switch) (doc_group DB) = true /\ lookup "reset" (elab_kw ex_vocab xc_switch) = None.
+Proof. repeat split; vm_compute; reflexivity. Qed.
+
+(* ---------------------------------------------------------------- names with inner blanks *)
+(* blanks INSIDE a name are part of the name in every argument form: only the blanks around a comma-separated field
+   are stripped *)
+Definition blank_labels : list (string * Z) := [("", 0); ("track", 1); ("drift scan", 2); ("noise diode", 3)]%string.
+Lemma ex_inner_blank_instance :
+  sel_to_list (XBare (AStr "drift scan")) = Some [AStr "drift scan"]
+  /\ sel_to_list (XBare (AStr " noise diode ,drift scan")) = Some [AStr "noise diode"; AStr "drift scan"]
+  /\ sel_to_list (XBare (AStr "~drift scan, track")) = sel_to_list (XSeq [AStr "~drift scan"; AStr "track"])
+  /\ mapM (elab_scan blank_labels) [AStr "drift scan"; AStr "~noise diode"; AStr "driftscan"]
+     = Some [SName 2; SNot 3; SName unknown_id].
+Proof. repeat split; vm_compute; reflexivity. Qed.
+
+(* for ALL names: a string without comma whose first and last characters are no blanks is a single item, itself *)
+Lemma single_name_kept : forall name, name <> EmptyString -> forallb clean [name] = true ->
+  sel_to_list (XBare (AStr name)) = Some [AStr name].
+Proof.
+  intros name Hne Hc. pose proof (comma_string_is_list [name]) as H. cbn [join] in H.
+  rewrite H; [reflexivity | discriminate | exact Hne | exact Hc].
 Qed.
